@@ -151,8 +151,16 @@ class C07Episode(Episode):
             for meth in ('bind', 'listen', 'close'):
                 orig = getattr(s, meth)
 
-                def wrapped(*a, _o=orig, _r=rec, _m=meth, **kw):
+                def wrapped(*a, _o=orig, _r=rec, _m=meth,
+                            _fail=bool(sc.get('bind_fail')), **kw):
                     _r[_m] += 1
+                    if _m == 'bind' and _fail:
+                        # somebody else holds the address
+                        import errno as _errno
+                        e = OSError(_errno.EADDRINUSE,
+                                    'Address already in use (simulated)')
+                        e.simulated = True
+                        raise e
                     return _o(*a, **kw)
                 setattr(s, meth, wrapped)
             socks.append(s)
@@ -172,7 +180,23 @@ class C07Episode(Episode):
         self.generations = {}
         self.on_quiet.append(C07Episode.check_quiet)
 
+    def stopped(self):
+        if getattr(self, 'refused_start', False):
+            return True
+        return super().stopped()
+
     def started(self):
+        f = self.world.start_future
+        if f is not None and f.done() and f.exception() is not None:
+            # a managed socket could not be bound: the daemon does not come
+            # up (and nothing of it is left running)
+            self.probes['daemon_refused_to_start'] += 1
+            if self.world.kernel.spawns:
+                self.viol('workers_of_a_daemon_that_did_not_start',
+                          'start failed with %r, yet %d workers were spawned'
+                          % (f.exception(), len(self.world.kernel.spawns)))
+            self.refused_start = True
+            return
         for name, rec in self.socks.items():
             s = rec['sock']
             st = os.fstat(s.fileno())
@@ -373,6 +397,10 @@ class C07(Prop):
         for sc in cfg['sockets']:
             if sc['kind'] == 'unix' and rng.random() < 0.2:
                 sc['seqpacket'] = True
+        if rng.random() < 0.04:
+            # one of the addresses is taken when the daemon starts: it must
+            # not come up with a socket that is not bound
+            rng.choice(cfg['sockets'])['bind_fail'] = True
         if rng.random() < 0.3:
             # an so_reuseport socket somewhere in the set (no watcher of the
             # case refers to it)
@@ -414,6 +442,7 @@ class C07(Prop):
             cfg['sockets'] = [s for s in cfg['sockets']
                               if not s.get('reuseport')]
             for sc in cfg['sockets']:
+                sc.pop('bind_fail', None)
                 fam = 'AF_UNIX' if sc['kind'] == 'unix' else 'AF_INET'
                 x = rng.random()
                 if x < 0.6:
